@@ -576,6 +576,9 @@ func c18ExecSocks(x *hysim.Run) {
 	}
 	x.Drain(time.Second)
 	synctest.Wait()
+	if al := x.WaitTasks(30 * time.Second); len(al) != 0 {
+		x.Violate("goroutine-leak", "harness tasks still alive at the end of the run: %v", al)
+	}
 }
 
 func c18Short(s string) string {
